@@ -1,7 +1,7 @@
 (* Model/DriverEnc.v -- driver entry points for the encoder and the whole-symbol API *)
 From Coq Require Import Arith NArith List Bool.
 From DM Require Import Generated.Symbols Generated.ModeTables Model.Outcome Model.SymbolList Model.Planner
-  Model.PlannerRun Model.Enc Model.Api Model.DriverSym.
+  Model.PlannerRun Model.Enc Model.Api Model.DriverSym Model.DriverPlace.
 Import ListNotations.
 
 Definition pick_sorter (trace : option (list (list nat))) :=
@@ -18,3 +18,53 @@ Definition d_encode_str (text wl : list N) (trace : option (list (list nat))) :=
 
 Definition d_dm_decode (pixels : list bool) (w : N) := dm_decode pixels w.
 Definition d_dm_bitmap (s : SymbolSize) (cw : list N) := dm_bitmap s cw.
+
+From DM Require Import Model.Dec Model.Render.
+(* rt: encode, decode the data codewords, decode the rendered symbol *)
+Definition d_rt (data wl : list N) (modes : N) (macros fnc1 : bool) (eci : option N) (trace : option (list (list nat))) :=
+  match d_encode data wl modes macros fnc1 eci trace with
+  | Ok (s, dcw, cw) =>
+    let d1 := decode_data dcw in
+    let d2 := match dm_bitmap s cw with
+              | Ok (w, bits) => dm_decode bits w
+              | _ => Panic PAssert
+              end in
+    Ok (s, dcw, d1, d2)
+  | Err e => Err e
+  | Panic p => Panic p
+  end.
+
+Definition flip_all (bits : list bool) (ks : list N) : list bool :=
+  fold_left (fun b k => DriverPlace.flip_nth b (N.to_nat k)) ks bits.
+Definition d_dm_decode_flips (s : SymbolSize) (cw : list N) (ks : list N) :=
+  match dm_bitmap s cw with
+  | Ok (w, bits) => dm_decode (flip_all bits ks) w
+  | _ => Panic PAssert
+  end.
+
+(* plan_enc: data::encodation_plan and data::encode_data (no macro, no FNC1, no ECI) with the planner statistics *)
+Definition d_plan_enc (data wl : list N) (modes : N) (trace : option (list (list nat))) :=
+  let sl := sl_from_iter (syms_of wl) in
+  let* (p, st) := lift (encodation_plan (pick_sorter trace) data sl modes) in
+  Ok (p, encode_data_internal (optimize_fn (pick_sorter trace)) data sl None modes false false, st).
+
+From DM Require Import Model.Eci.
+Definition d_str_rt (text wl : list N) (trace : option (list (list nat))) :=
+  match d_encode_str text wl trace with
+  | Ok (s, dcw, cw) => Ok (s, dcw, decode_str dcw)
+  | Err e => Err e
+  | Panic p => Panic p
+  end.
+
+(* dm_flip_codewords: decode the rendering of a codeword vector with one bit flipped in each listed codeword *)
+Fixpoint flip_cws (cw : list N) (ks : list N) (n : nat) : list N :=
+  match ks with
+  | [] => cw
+  | k :: r =>
+    let cw' := map (fun ic => if Nat.eqb (fst ic) (N.to_nat k) then N.lxor (snd ic) (N.shiftl 1 (N.of_nat (Nat.modulo n 8))) else snd ic)
+                   (combine (seq 0 (length cw)) cw) in
+    flip_cws cw' r (S n)
+  end.
+Definition d_dm_flip_codewords (s : SymbolSize) (cw ks : list N) :=
+  let dec c := match dm_bitmap s c with Ok (w, bits) => dm_decode bits w | _ => Panic PAssert end in
+  (dec cw, dec (flip_cws cw ks 0)).
